@@ -255,7 +255,7 @@ def h_api(c, idx, cold=False, hot=False):
         c.prove(len(windows) == 0, "api:no-interference-window-on-shared-numeric-state", info=info)
     c.prove(len(postpub) == 0, "api:objects-are-complete-before-they-are-published-in-shared-state",
             info=dict(info, postpub=[list(x) for x in postpub[:4]], cold=True))
-    c.prove(len(removals) == 0, "api:shared-caches-are-insert-only",
+    c.prove(len(removals) == 0, "api:shared-containers-are-insert-only(no removal/reordering at run time)",
             info=dict(info, removals=[list(x) for x in removals[:4]], cold=True))
     c.prove(k == "ok" or name in ("uncompact",), "api:call-completes", info=info)
 
